@@ -245,7 +245,7 @@ theorem exec_stack (E : Env) (p : Prog) : ∀ (top : Dict) (rest : List Dict),
   induction p with
   | done => intro top rest; exact ⟨top, rfl⟩
   | raise => intro top rest; exact ⟨top, rfl⟩
-  | call id m pos kw caught next ih =>
+  | call id m pos kw caught fails next ih =>
     intro top rest
     simp only [exec]
     split
@@ -255,14 +255,15 @@ theorem exec_stack (E : Env) (p : Prog) : ∀ (top : Dict) (rest : List Dict),
     intro top rest
     simp only [exec, updTop]
     exact ih _ rest
-  | block id ctx body next ihb ihn =>
+  | block id ctx body cb next ihb ihc ihn =>
     intro top rest
     obtain ⟨c', hc⟩ := ihb (dictOf ctx) (top :: rest)
-    simp only [exec, hc, List.tail_cons]
+    obtain ⟨c'', hc2⟩ := ihc c' (top :: rest)
+    simp only [exec, hc, hc2, List.tail_cons]
     split
     · exact ⟨top, rfl⟩
     · exact ihn top rest
-  | app id pos kw sf body next ihb ihn =>
+  | app id pos kw sf body cb next ihb ihc ihn =>
     intro top rest
     simp only [exec]
     split
@@ -271,10 +272,17 @@ theorem exec_stack (E : Env) (p : Prog) : ∀ (top : Dict) (rest : List Dict),
       · exact ⟨top, rfl⟩
       · rename_i bound _
         obtain ⟨c', hc⟩ := ihb [("app_id", (dget bound "app_id").getD Val.none)] (top :: rest)
-        simp only [hc, List.tail_cons]
+        obtain ⟨c'', hc2⟩ := ihc c' (top :: rest)
+        simp only [hc]
         split
-        · exact ⟨top, rfl⟩
-        · exact ihn top rest
+        · simp only [List.tail_cons]
+          split
+          · exact ⟨top, rfl⟩
+          · exact ihn top rest
+        · simp only [hc2, List.tail_cons]
+          split
+          · exact ⟨top, rfl⟩
+          · exact ihn top rest
   | attempt body next ihb ihn =>
     intro top rest
     obtain ⟨c', hc⟩ := ihb top rest
@@ -282,14 +290,14 @@ theorem exec_stack (E : Env) (p : Prog) : ∀ (top : Dict) (rest : List Dict),
     exact ihn c' rest
 
 /-- `update_current_context` does not occur at the level of this statement sequence
-(it may occur inside nested blocks, where it acts on the block's own context) -/
+(it may occur inside nested blocks and their callbacks, where it acts on the block's own context) -/
 def noTopUpdate : Prog → Bool
   | .done => true
   | .raise => true
-  | .call _ _ _ _ _ next => noTopUpdate next
+  | .call _ _ _ _ _ _ next => noTopUpdate next
   | .update _ _ => false
-  | .block _ _ _ next => noTopUpdate next
-  | .app _ _ _ _ _ next => noTopUpdate next
+  | .block _ _ _ _ next => noTopUpdate next
+  | .app _ _ _ _ _ _ next => noTopUpdate next
   | .attempt body next => noTopUpdate body && noTopUpdate next
 
 theorem exec_stack_same (E : Env) (p : Prog) : ∀ (top : Dict) (rest : List Dict),
@@ -297,7 +305,7 @@ theorem exec_stack_same (E : Env) (p : Prog) : ∀ (top : Dict) (rest : List Dic
   induction p with
   | done => intro top rest _; rfl
   | raise => intro top rest _; rfl
-  | call id m pos kw caught next ih =>
+  | call id m pos kw caught fails next ih =>
     intro top rest h
     simp only [noTopUpdate] at h
     simp only [exec]
@@ -305,15 +313,16 @@ theorem exec_stack_same (E : Env) (p : Prog) : ∀ (top : Dict) (rest : List Dic
     · rfl
     · exact ih top rest h
   | update kv next ih => intro top rest h; simp [noTopUpdate] at h
-  | block id ctx body next ihb ihn =>
+  | block id ctx body cb next ihb ihc ihn =>
     intro top rest h
     simp only [noTopUpdate] at h
     obtain ⟨c', hc⟩ := exec_stack E body (dictOf ctx) (top :: rest)
-    simp only [exec, hc, List.tail_cons]
+    obtain ⟨c'', hc2⟩ := exec_stack E cb c' (top :: rest)
+    simp only [exec, hc, hc2, List.tail_cons]
     split
     · rfl
     · exact ihn top rest h
-  | app id pos kw sf body next ihb ihn =>
+  | app id pos kw sf body cb next ihb ihc ihn =>
     intro top rest h
     simp only [noTopUpdate] at h
     simp only [exec]
@@ -323,10 +332,17 @@ theorem exec_stack_same (E : Env) (p : Prog) : ∀ (top : Dict) (rest : List Dic
       · rfl
       · rename_i bound _
         obtain ⟨c', hc⟩ := exec_stack E body [("app_id", (dget bound "app_id").getD Val.none)] (top :: rest)
-        simp only [hc, List.tail_cons]
+        obtain ⟨c'', hc2⟩ := exec_stack E cb c' (top :: rest)
+        simp only [hc]
         split
-        · rfl
-        · exact ihn top rest h
+        · simp only [List.tail_cons]
+          split
+          · rfl
+          · exact ihn top rest h
+        · simp only [hc2, List.tail_cons]
+          split
+          · rfl
+          · exact ihn top rest h
   | attempt body next ihb ihn =>
     intro top rest h
     simp only [noTopUpdate, Bool.and_eq_true] at h
